@@ -78,7 +78,7 @@ def minimise(exe, session, idx, what):
             return what.startswith("engine-")
         v = fd.check_search(ses["steps"][i], res[i]["lines"])
         if res[i]["status"] != "ok":
-            return what.startswith("engine-")
+            return what.startswith("engine-") and res[i]["status"].startswith("crash")
         return any(x[0] == what for x in v)
     step = dict(session["steps"][idx])
     # 1. the failing search alone, with all options in force given explicitly
@@ -186,7 +186,14 @@ def finder(ctx, nsessions, nsearch, thorough, engines):
                         "options": step["opts_now"], "net": list(ses["net"]),
                         "answer": bm[0] if bm else None, "info_pv_lines": npv}, limit=5)
             if r["status"] != "ok":
-                found.append((ses, i, ("engine-" + r["status"].split()[0], r["status"]), lines))
+                if r["status"].startswith("crash"):
+                    # the engine process died during this search, also when re-run alone: no well-formed answer
+                    found.append((ses, i, ("engine-crash", r["status"]), lines))
+                else:
+                    # no answer within the time-out although the process is alive: liveness is C10's subject and a
+                    # loaded machine looks the same; recorded, not a C03 violation
+                    ctx.count("finder_searches_unanswered_within_timeout")
+                    ctx.log("no answer within the time-out (%s): %s | %s" % (r["status"], step["position"][:80], step["go"]))
                 break
             viol = fd.check_search(step, lines)
             seen = set()
